@@ -399,6 +399,31 @@ pub fn run() -> Report {
             rep.disagree("trace:large-disjoint-layout", format!("{} files: exit {:?} peak {} problems {:?}", files, r.code, tv.peak, tv.problems.first()), json!({"kind": "e1-described", "layout": format!("{} one-block files", files)}));
         }
     }
+    // the same disjoint layout far from height 0: spans that end below, straddle and lie above 2^32, and above 2^40 (a height kept
+    // in a narrower integer than the index stores never reaches a file's last height, or reaches it too early); --start at
+    // the first height of the layout. Black-box oracle only: the run must get by with the calibrated descriptor limit.
+    for base in [(1u64 << 32) - 100, 1 << 32, (1 << 40) + 5, (1 << 16) - 100, (1 << 31) - 100] {
+        let files = 200usize;
+        let wk = Worker::new(&root, 602);
+        let big = dependent_chain(btc, base, files);
+        let assign: Vec<usize> = (0..files).collect();
+        let world = world_for(&big, &assign);
+        if let Err(m) = wk.materialise(&world) {
+            rep.machinery(m);
+            continue;
+        }
+        rep.states += 1;
+        rep.nontrivial.insert(h8(format!("large-high{}", base).as_bytes()));
+        let mut spec = RunSpec::new("bitcoin", "csvdump").range(Some(base), None);
+        spec.rlimit_nofile = n1;
+        let r: RunResult = wk.run(&spec);
+        rep.transitions += 1;
+        rep.count("large-layout-runs-at-high-heights", 1);
+        if let Some((sig, detail)) = expect_success(&r).into_iter().next() {
+            rep.disagree(&format!("rlimit:large-disjoint-layout-at-high-heights:{}", sig), format!("{} one-block files holding heights {}.. under RLIMIT_NOFILE={}: {}", files, base, n1, detail.chars().take(300).collect::<String>()), json!({"kind": "e1-described", "layout": format!("{} one-block files, first height {}", files, base)}));
+        }
+        wk.cleanup();
+    }
     // long chains: several blocks per file, more blocks than a difficulty period (2016) / a halving-sized stretch of heights,
     // so that anything the driver does "every N blocks" (look-backs that reopen an old file, periodic re-reads) happens a few times
     let long_layouts: Vec<(usize, usize)> = if thorough { vec![(6_200, 310), (12_200, 40), (70_000, 5_000)] } else { vec![(6_200, 310)] };
